@@ -14,6 +14,9 @@ type DocLink struct {
 	ID     int    `json:"id"`
 	Target string `json:"target"`
 	Kind   string `json:"kind"` // a, img, video, audio, iframe, gemlink, url, attachment
+	// AsShown: a bare address in running text directly followed by punctuation: where the address ends is the
+	// renderer's call, so the target is whatever the rendering shows (underlined, before the number)
+	AsShown bool `json:"as_shown,omitempty"`
 }
 
 // Doc is a generated markup body with ground truth.
@@ -377,12 +380,16 @@ func GenPlain(t *rapid.T, next *int) Doc {
 		if i > 0 {
 			b.WriteString(rapid.SampledFrom([]string{" ", " ", "\n", "\n\n", "  "}).Draw(t, "sep"))
 		}
-		switch rapid.IntRange(0, 4).Draw(t, "plainkind") {
+		switch rapid.IntRange(0, 5).Draw(t, "plainkind") {
 		case 0, 1, 2:
 			b.WriteString(g.words(8))
 		case 3:
 			id := g.link("url")
 			b.WriteString(Target(id))
+		case 5:
+			id := g.link("url")
+			g.links[len(g.links)-1].AsShown = true
+			b.WriteString(Target(id) + rapid.SampledFrom([]string{".", ",", ";", ":", "!", "?", "'", ")", "\"", ">", "...", "?!", ")."}).Draw(t, "punct"))
 		default:
 			id := g.link("url")
 			b.WriteString("(" + Target(id) + "?x=1&y=2#frag-" + fmt.Sprint(id) + "z ")
